@@ -38,6 +38,7 @@ def nextAct : List Stmt → List Res → Option Act
       match res with
       | [] => some (.op (.get b s))
       | [.got (.val v)] => some (.op (.put b d v))
+      | [.got .hasDel] => some (.op (.put b d 1))
       | [_] => some (.op (.del b d))
       | _ :: _ :: r => nextAct rest r
     | .cnt b lo hi n d =>
@@ -57,15 +58,20 @@ def nextAct : List Stmt → List Res → Option Act
 def itemsStr (l : List (Key × Nat)) : String :=
   "[" ++ ",".intercalate (l.map (fun (k, v) => s!"{k}={v}")) ++ "]"
 
+def gotStr : GetRes → String
+  | .val v => s!"{v}"
+  | .notFound => "-"
+  | .hasDel => "x"
+
 /-- what the observing statements print into the response body -/
 def bodyOf : List Stmt → List Res → List String
   | [], _ => []
   | st :: rest, res =>
     match st, res with
-    | .get _ _, .got (.val v) :: r => s!"{v}" :: bodyOf rest r
+    | .get _ _, .got g :: r => gotStr g :: bodyOf rest r
     | .get _ _, _ :: r => "-" :: bodyOf rest r
-    | .copy _ _ _, .got (.val v) :: _ :: r => s!"{v}" :: bodyOf rest r
-    | .copy _ _ _, .got (.val v) :: [] => [s!"{v}"]
+    | .copy _ _ _, .got g :: _ :: r => gotStr g :: bodyOf rest r
+    | .copy _ _ _, .got g :: [] => [gotStr g]
     | .copy _ _ _, _ :: _ :: r => "-" :: bodyOf rest r
     | .copy _ _ _, [_] => ["-"]
     | .scan _ _ _ _, .items (some l) :: r => itemsStr l :: bodyOf rest r
